@@ -6,6 +6,11 @@ DevIdeal == {}
 DevWal == {"StaleWalKept"}
 DevBak == {"BackupNotAtomic"}
 DevAsIs == {"StaleWalKept", "BackupNotAtomic"}
+DevMode == {"JournalModeKept"}
+
+StartsBase == {"base"}
+StartsAll == {"base", "basedel", "zero", "absent"}
+StartsJ == {"basedel", "zero", "absent"}
 
 \* the flows of the library: process_dump(skip_extract_dump) = backup, overwrite;
 \* analyze_and_overwrite_pages = overwrite; plain reopen; each with / without close
@@ -15,6 +20,20 @@ FlowsLib == [BOC |-> <<"backup", "write", "close">>,
              C   |-> <<"close">>,
              BOBC |-> <<"backup", "write", "backup", "close">>,
              OBC |-> <<"write", "backup", "close">>]
+
+\* the journal dimension (G): one dedicated library flow whose last overwrite is too large for SQLite's
+\* page cache (overwrite, backup, overwrite, big overwrite, close), and the plain reopen
+FlowsLibJ == [OBOVC |-> <<"write", "backup", "write", "bigwrite", "close">>,
+              C |-> <<"close">>]
+
+\* the journal dimension (M): orders of up to four calls with big overwrites before / after a backup
+FlowsFreeJ == [V |-> <<"bigwrite">>, C |-> <<"close">>, B |-> <<"backup">>,
+               VC |-> <<"bigwrite", "close">>, BV |-> <<"backup", "bigwrite">>,
+               VB |-> <<"bigwrite", "backup">>, WV |-> <<"write", "bigwrite">>,
+               BWV |-> <<"backup", "write", "bigwrite">>, BVW |-> <<"backup", "bigwrite", "write">>,
+               BVC |-> <<"backup", "bigwrite", "close">>, VBV |-> <<"bigwrite", "backup", "bigwrite">>,
+               WBWV |-> <<"write", "backup", "write", "bigwrite">>,
+               BWVC |-> <<"backup", "write", "bigwrite", "close">>]
 
 \* every order of up to four calls (two backups / two overwrites in one session,
 \* backup after overwrite, ...): the design must be safe for any client
